@@ -309,6 +309,28 @@ def split2 (a b : Nat) : Str → List Str
       | t :: ts => (x :: t) :: ts
       | [] => [[x]]
 
+/-- split at every occurrence of the character `d` (like `str.split(' ')`) -/
+def split1 (d : Nat) : Str → List Str
+  | [] => [[]]
+  | c :: r =>
+    if c == d then [] :: split1 d r
+    else match split1 d r with
+      | t :: ts => (c :: t) :: ts
+      | [] => [[c]]
+
+/-- `int(text)` on decimal digits -/
+def digitsVal (s : Str) : Nat := s.foldl (fun acc c => 10 * acc + (c - 48)) 0
+
+/-- a Content-Range reader (RFC 9110 §14.4 `unit SP first "-" last "/" complete-length`): (unit, first, last, length text) -/
+def parseRange (v : Str) : Option (Str × Nat × Nat × Str) :=
+  match takeUntil 32 v with
+  | none => none
+  | some (u, r) => match takeUntil 45 r with
+    | none => none
+    | some (a, r2) => match takeUntil 47 r2 with
+      | none => none
+      | some (b, c) => some (u, digitsVal a, digitsVal b, c)
+
 /-- RFC 8187 ext-value `charset'language'value-chars` → (charset, language, value-chars) -/
 def parseExt (s : Str) : Option (Str × Str × Str) :=
   match takeUntil 39 s with
